@@ -355,9 +355,7 @@ class QuoteEval:
         self.inline_depth = inline_depth
         self._roots = {}
         self._rpo = {}
-        self._guards = {}
         self.inlined = []       # (caller id, callee id)
-        self._is_closure = {}
 
     # ---- per-function caches
     def rpo(self, fn):
@@ -439,7 +437,6 @@ class QuoteEval:
 
     def guards_of(self, frame, b):
         fn = frame.fn
-        key = (fn.id, b)
         # guards mention terms that depend on the frame (args), so cache per frame
         ck = frame.memo.get(("g", b))
         if ck is not None:
@@ -448,7 +445,7 @@ class QuoteEval:
         reach = fn.reachable(0)
         loops = fn.loop_blocks()
         for sbb, st in fn.switches():
-            if sbb not in reach or sbb == b and False:
+            if sbb not in reach:
                 continue
             succs = fn.succ(sbb)
             if len(succs) < 2 or not fn.dominates(sbb, b):
@@ -819,27 +816,6 @@ def expand(toks):
         else:
             out.append(t)
     return tuple(out)
-
-
-def flat_idents(toks):
-    """All identifiers emitted anywhere in a token list (any nesting / alternative)."""
-    out = []
-    for t in toks:
-        k = t[0]
-        if k == "id":
-            out.append(t[1])
-        elif k == "grp":
-            out.extend(flat_idents(t[2]))
-        elif k == "rep":
-            out.extend(flat_idents(t[1]))
-        elif k in ("when", "cond"):
-            out.extend(flat_idents(t[2]))
-        elif k == "alt":
-            for g, x in t[1]:
-                out.extend(flat_idents(x))
-        elif k == "hole" and t[1][0] == "ts":
-            out.extend(flat_idents(t[1][1]))
-    return out
 
 
 def sequences(toks):
